@@ -1013,3 +1013,8 @@ def finish(tier, rep: Report):
         fails.append(f"too few well-conditioned tetrahedral meshes were checked: {nvol}")
     return fails
 
+
+def dupflag_variant(task, tier):
+    """Tasks that are also run with config.display_duplicate_attribute_warning = True (the runner appends
+    ':duplicate_attribute_flag' to the input class of anything found there)."""
+    return bool(task.get("kind") == "vol")
